@@ -44,10 +44,14 @@ var c08Msgs = func() [][]byte {
 	bad2[4] ^= 0x01 // cookie
 	bad3 := append([]byte(nil), msgs[5]...)
 	bad3[23] = 0x7f // first attribute overruns
-	return append(msgs, bad1, bad2, bad3)
+	// the last attribute without its padding, the header saying so (RFC 3489-era peers; the decoder rejects it)
+	bad4 := append([]byte(nil), msgs[3]...)
+	bad4 = bad4[:len(bad4)-1]
+	bad4[2], bad4[3] = byte((len(bad4)-20)>>8), byte(len(bad4)-20)
+	return append(msgs, bad1, bad2, bad3, bad4)
 }()
 
-var c08DecodeNames = []string{"Decode(data,m)", "Write", "UnmarshalBinary", "ReadFrom", "CloneTo", "ReadFrom(segmented stream: 20 | 10 | rest)", "ReadFrom(zero-length datagram)", "GobDecode", "Write; drop the first attribute; Encode in place"}
+var c08DecodeNames = []string{"Decode(data,m)", "Write", "UnmarshalBinary", "ReadFrom", "CloneTo", "ReadFrom(segmented stream: 20 | 10 | rest)", "ReadFrom(zero-length datagram)", "GobDecode", "Write; drop the first attribute; Encode in place", "Write; change the first attribute's type and shorten the last value in place; Encode"}
 
 // c08Setters: each entry builds the setter list from caller-owned buffers and
 // returns the buffers so that the caller can overwrite them afterwards.
@@ -173,9 +177,24 @@ func c08Apply(m *stun.Message, u int, poison byte) error {
 			m.Attributes = m.Attributes[1:]
 			m.Encode()
 		}
+	case 9:
+		if _, err = m.Write(data); err == nil && len(m.Attributes) >= 1 {
+			c08EditInPlace(m.Attributes)
+			m.Encode()
+		}
 	}
 	scribble(data)
 	return err
+}
+
+// c08EditInPlace changes the list the way a relay does before re-encoding: the first attribute gets another type, the
+// last one loses its last byte; the values stay where they are.
+func c08EditInPlace(as stun.Attributes) {
+	as[0].Type ^= 0x4000
+	if l := &as[len(as)-1]; len(l.Value) > 0 {
+		l.Value = l.Value[:len(l.Value)-1]
+		l.Length--
+	}
 }
 
 // c08Poison overwrites the storage a Message retains beyond its visible content.
@@ -289,6 +308,26 @@ func c08Run(k c08Case) (outcome, key, detail string) {
 								key, detail = "value-outside-raw", fmt.Sprintf("%s: attribute %d does not point into m.Raw", c08UseName(u), i)
 								return
 							}
+						}
+					}
+				}
+				if u < nd && u/len(c08Msgs) == 9 {
+					if pm, _ := ref.Parse(c08Msgs[u%len(c08Msgs)]); pm != nil && len(pm.Attrs) >= 1 {
+						var keep []ref.EncodeAttr
+						for i, a := range pm.Attrs {
+							t, v := ref.CanonType(a.Type), a.Value
+							if i == 0 {
+								t ^= 0x4000
+							}
+							if i == len(pm.Attrs)-1 && len(v) > 0 {
+								v = v[:len(v)-1]
+							}
+							keep = append(keep, ref.EncodeAttr{Type: t, Value: v})
+						}
+						want := ref.Encode(ref.TypeWord(pm.Method, pm.Class), pm.TID, keep)
+						if !bytes.Equal(m.Raw, want) {
+							key, detail = "reencode-in-place", fmt.Sprintf("%s: Raw is %x, the canonical encoding of the edited attributes is %x", c08UseName(u), clip(m.Raw), clip(want))
+							return
 						}
 					}
 				}
